@@ -54,6 +54,6 @@ SPEC = {
         "no file-system faults other than not-exist / exists",
     ],
     "trusted_base": [],
-    "own_objects": ["theories/Props/C08.vo", "theories/Proofs/UploaderLock.vo", "theories/Proofs/UploaderDisp.vo",
+    "own_objects": ["theories/Props/C08.vo", "theories/Proofs/UploaderLock.vo", "theories/Proofs/UploaderLockOwner.vo", "theories/Proofs/UploaderDisp.vo",
                     "theories/Proofs/UploaderLive.vo"],
 }
